@@ -528,8 +528,9 @@ fn oracle_fit(ctx: &mut Ctx, fc: &FitCase, ft: &Fitted, class: &str) -> &'static
         }
         let mut idx: Vec<usize> = (0..ft.dec.len()).filter(|i| !ft.dec[*i].is_nan()).collect();
         idx.sort_by(|u, v| ft.dec[*u].partial_cmp(&ft.dec[*v]).unwrap());
-        let inc = idx.windows(2).all(|w| pr[w[0]] <= pr[w[1]]);
-        let dec = idx.windows(2).all(|w| pr[w[0]] >= pr[w[1]]);
+        // the f32 evaluation of the sigmoid (two branches, exp, division) is monotone up to its rounding
+        let inc = idx.windows(2).all(|w| pr[w[0]] <= pr[w[1]] + 1e-6);
+        let dec = idx.windows(2).all(|w| pr[w[0]] + 1e-6 >= pr[w[1]]);
         ctx.require(inc || dec, "platt_monotone", class, || "calibrated probabilities are not a monotone function of the decision value".to_string());
         ctx.require(pr.iter().all(|p| *p >= 0.0 && *p <= 1.0), "platt_range", class, || "probability outside [0,1]".to_string());
     }
@@ -551,10 +552,22 @@ fn oracle_fit(ctx: &mut Ctx, fc: &FitCase, ft: &Fitted, class: &str) -> &'static
     }
     // decision value from the published coefficients, at training rows and unseen points
     let dnoise = |i: usize| -> f64 { 8.0 * fe * (1.0 + mass(i)) * ((n as f64).sqrt() + 4.0) };
+    // the same sum over the coefficients weighted_sum keeps (|alpha| > 100 eps of the float type)
+    let thr = 100.0 * fe;
+    let f_kept = |i: usize| -> f64 { (0..n).filter(|j| a[*j].abs() > thr).map(|j| a[j] * kmat[j][i]).sum::<f64>() - ft.rho };
+    let class_f = format!("{}:f32={}", class, fc.f32_ as u8);
     for i in 0..np {
-        ctx.require((f[i] - ft.dec[i]).abs() <= dnoise(i), "decision_value", class, || {
-            format!("point {}{}: weighted_sum - rho = {} but sum_j alpha_j K(x_j,x) - rho = {} (tolerance {})", i, if i >= n { " (unseen)" } else { "" }, ft.dec[i], f[i], dnoise(i))
-        });
+        if (f[i] - ft.dec[i]).abs() <= dnoise(i) {
+            continue;
+        }
+        if (f_kept(i) - ft.dec[i]).abs() <= dnoise(i) {
+            // the value is the sum over the coefficients above the absolute threshold 100 eps only: published
+            // non-zero coefficients below it are ignored although their contribution is not rounding noise
+            let dropped = (0..n).filter(|j| a[*j] != 0.0 && a[*j].abs() <= thr).count();
+            ctx.fail("decision_value_small_coefficients", &class_f, format!("point {}: weighted_sum - rho = {} is the sum over the {} coefficients above 100 eps = {:e}; with the {} published non-zero coefficients below it sum_j alpha_j K(x_j,x) - rho = {} (tolerance {:e})", i, ft.dec[i], ft.nsupport, thr, dropped, f[i], dnoise(i)));
+        } else {
+            ctx.fail("decision_value", class, format!("point {}{}: weighted_sum - rho = {} but sum_j alpha_j K(x_j,x) - rho = {} (tolerance {})", i, if i >= n { " (unseen)" } else { "" }, ft.dec[i], f[i], dnoise(i)));
+        }
     }
     // ---- KKT: the solver's own gradient differs from the exact one by the rounding it accumulated:
     // every iteration moves two coefficients and adds their kernel columns to the gradient
